@@ -1,0 +1,9 @@
+//go:build !verif
+
+package http2
+
+const verifOn = false
+
+func verifPool(kind string, obj any, acquire bool) bool { return false }
+
+func verifPoint(site string) {}
